@@ -4,6 +4,8 @@
 -/
 import Arrai.C17.Model
 
+set_option linter.unusedSimpArgs false
+
 namespace Arrai.C17
 
 /-! ## enumeration orders are permutations -/
@@ -35,6 +37,25 @@ theorem permBy_perm {α : Type} : ∀ (c : List Nat) (l : List α), (permBy c l)
     | some p =>
       obtain ⟨x, r⟩ := p
       exact (List.Perm.cons x (permBy_perm cs r)).trans (pickAt_perm _ _ _ _ hp).symm
+
+theorem mem_pickAt {α : Type} : ∀ (l : List α) (x : α), x ∈ l → ∃ i r, i < l.length ∧ pickAt i l = some (x, r)
+  | [], _, h => by simp at h
+  | y :: t, x, h => by
+    rcases List.mem_cons.1 h with rfl | h
+    · exact ⟨0, t, by simp, rfl⟩
+    · obtain ⟨i, r, hi, hp⟩ := mem_pickAt t x h
+      exact ⟨i + 1, y :: r, by simp; omega, by simp [pickAt, hp]⟩
+
+theorem permBy_complete {α : Type} : ∀ (l' l : List α), l'.Perm l → ∃ c, permBy c l = l'
+  | [], l, h => ⟨[], by simp [permBy, h.symm.eq_nil]⟩
+  | x :: t, l, h => by
+    have hx : x ∈ l := (h.mem_iff).1 (List.mem_cons_self ..)
+    obtain ⟨i, r, hi, hp⟩ := mem_pickAt l x hx
+    have h1 := pickAt_perm i l x r hp
+    have h2 : t.Perm r := List.Perm.cons_inv (h.trans h1)
+    obtain ⟨c, hc⟩ := permBy_complete t r h2
+    refine ⟨i :: c, ?_⟩
+    simp [permBy, Nat.mod_eq_of_lt hi, hp, hc]
 
 namespace Impl
 variable {S : Type}
@@ -880,6 +901,31 @@ theorem isolation (g0 : S) (j : Nat) (h h' : List (Msg S)) (hv : view j 0 h = vi
   rw [hc, ← a] at b
   simp only [Prod.mk.injEq] at b
   exact ⟨b.2.1.symm, b.2.2.symm⟩
+
+/-! ### the enumeration orders chosen for the map are invisible -/
+
+def reorder (f : List Nat → List Nat) : Msg S → Msg S
+  | .update e o => .update e (f o)
+  | .hangup o => .hangup (f o)
+  | m => m
+
+theorem view_reorder (f : List Nat → List Nat) (j : Nat) : ∀ (h : List (Msg S)) (n : Nat),
+    view j n (h.map (reorder f)) = view j n h
+  | [], _ => rfl
+  | m :: r, n => by
+    cases m with
+    | add e c => simp only [List.map_cons, reorder, view]; rw [view_reorder f j r (n + 1)]
+    | remove i => simp only [List.map_cons, reorder, view]; rw [view_reorder f j r n]
+    | update e o => simp only [List.map_cons, reorder, view]; rw [view_reorder f j r n]
+    | hangup o => simp only [List.map_cons, reorder, view]; rw [view_reorder f j r n]
+
+theorem noReenter_reorder (f : List Nat → List Nat) : ∀ (h : List (Msg S)), noReenter (h.map (reorder f)) = noReenter h
+  | [] => rfl
+  | m :: r => by
+    have ih := noReenter_reorder f r
+    simp only [noReenter] at ih
+    simp only [noReenter, List.map_cons, List.all_cons, ih]
+    cases m <;> rfl
 
 /-! ### an observer that never fails and is never cancelled hears every installed state -/
 
